@@ -104,6 +104,10 @@ pub fn scalars() -> &'static [String] {
     use rand::SeedableRng;
     static T: std::sync::OnceLock<Vec<String>> = std::sync::OnceLock::new();
     T.get_or_init(|| {
+        // development aid: measure what the hand-picked pools alone would catch
+        if std::env::var("TUVERIF_NO_SCALARS").is_ok() {
+            return MULTIBYTE.iter().map(|s| s.to_string()).collect();
+        }
         let mut rng = Rng::seed_from_u64(0x5ca1_a125);
         let mut v: Vec<String> = vec![];
         let mut push = |x: u32| {
